@@ -43,7 +43,22 @@ pub assume_specification [Vm::run_gc] (vm: &mut Vm) ensures obs(*final(vm)) == o
 pub assume_specification [crate::vm::trace::StackTrace::new] (s: &Stack, h: &Heap, ip: (usize, usize), acc: VCell) -> (r: StackTrace);
 pub uninterp spec fn heap_value(h: Heap, v: VCell) -> Cell;
 pub assume_specification [Heap::get_as_cell] (h: &Heap, v: &VCell) -> (r: Cell) ensures r == heap_value(*h, *v);
-pub assume_specification [Stack::clear] (s: &mut Stack);
+pub uninterp spec fn stack_sp(s: Stack) -> usize;
+pub uninterp spec fn stack_wiped(s: Stack) -> bool;
+/// every slot Undefined afterwards, sp unchanged (proved in unit `stack`; assumed in this group where Stack is opaque)
+pub assume_specification [Stack::clear] (s: &mut Stack) ensures stack_wiped(*final(s)), stack_sp(*final(s)) == stack_sp(*old(s));
+/// hands out the stack pointer register: only sp changes through the returned reference
+pub assume_specification [Stack::get_sp_mut] (s: &mut Stack) -> (r: &mut usize)
+    ensures *r == stack_sp(*old(s)), stack_sp(*final(s)) == *final(r), stack_wiped(*final(s)) == stack_wiped(*old(s));
+/// heap and global environment of an observable state
+pub uninterp spec fn obs_store(o: int) -> (Heap, GlobalEnvironment);
+#[verifier::external_body]
+pub proof fn axiom_obs_store(heap: Heap, globenv: GlobalEnvironment, stack: Stack, acc: VCell, ep: usize, ip: (usize, usize), bp: usize)
+    ensures obs_store(obs_parts(heap, globenv, stack, acc, ep, ip, bp)) == (heap, globenv) {}
+impl Vm {
+    /// the idle top-level control state: empty wiped stack, no frame, no environment
+    pub closed spec fn idle(&self) -> bool { stack_sp(self.stack) == 0 && stack_wiped(self.stack) && self.bp == 0 && self.ep == usize::MAX }
+}
 /// the halt value is the accumulator read through the heap
 #[verifier::external_body]
 pub proof fn axiom_halt_value(heap: Heap, globenv: GlobalEnvironment, stack: Stack, acc: VCell, ep: usize, ip: (usize, usize), bp: usize)
@@ -111,7 +126,9 @@ UNITS = [
                     # halted: at the first stopping step k < count, which is a halt; value = accumulator of the state after it
                     (P13, 'r matches Ok(Some(c)) ==> exists|k: nat| first_stop(obs(*old(self)), count as nat, k) && step_kind(iter(obs(*old(self)), k)) == 1 && c == halt_value(iter(obs(*old(self)), k + 1))'),
                     # failed: at the first stopping step k < count, which fails, with that instruction's error; state = state after it
-                    (P13, 'r matches Err(e) ==> exists|k: nat| first_stop(obs(*old(self)), count as nat, k) && step_kind(iter(obs(*old(self)), k)) == 2 && e == step_err(iter(obs(*old(self)), k)) && obs(*final(self)) == iter(obs(*old(self)), k + 1)'),
+                    (P13, 'r matches Err(e) ==> exists|k: nat| first_stop(obs(*old(self)), count as nat, k) && step_kind(iter(obs(*old(self)), k)) == 2 && e == step_err(iter(obs(*old(self)), k)) && obs_store(obs(*final(self))) == obs_store(iter(obs(*old(self)), k + 1))'),
+                    # C07: a failed evaluation leaves the machine in the idle top-level control state (no frames, no stale roots)
+                    (['C07'], '(r is Err) ==> final(self).idle()'),
                 ],
                 'loops': {0: '''invariant_except_break
                     cycles < count,
@@ -124,10 +141,14 @@ UNITS = [
                     obs(*self) == iter(obs(*old(self)), cycles as nat),'''},
                 'loop_count': 1,
                 'inserts': [
+                    {'anchor': 'Err(e) => {', 'where': 'after', 'text': 'let ghost failed = *self;'},
                     {'anchor': 'return Err(e);', 'where': 'before', 'text': '''proof {
                         let k = (cycles - 1) as nat;
                         assert(iter(obs(*old(self)), k + 1) == step_obs(iter(obs(*old(self)), k)));
                         assert(first_stop(obs(*old(self)), count as nat, k));
+                        assert(obs(failed) == iter(obs(*old(self)), k + 1));
+                        axiom_obs_store(failed.heap, failed.globenv, failed.stack, failed.acc, failed.ep, failed.ip, failed.bp);
+                        axiom_obs_store(self.heap, self.globenv, self.stack, self.acc, self.ep, self.ip, self.bp);
                     }'''},
                     {'anchor': 'let cell = self.heap.get_as_cell(&self.acc);', 'where': 'before', 'text': '''proof {
                         let k = (cycles - 1) as nat;
